@@ -348,10 +348,36 @@ def run(ctx):
     pushes = [c for c in s.calls if c['callee'] == 'alloc::vec::Vec::<T, A>::push']
     clears = [c for c in s.calls if c['callee'] == 'alloc::vec::Vec::<T, A>::clear']
     ident_ok = True
+
+    def pv(c_):
+        """the pushed value; a call of a local closure (`entry(&board)`) is replaced by the closure's value on its arguments"""
+        v_ = norm(c_['argvals'][1])
+        if v_[0] == 'call' and '::{closure#' in v_[1] and v_[2] and v_[2][0][0] == 'closure':
+            try:
+                # Fn::call(closure, (args..)): the arguments arrive as one tuple
+                args_ = tuple(v_[2][1][1]) if len(v_[2]) == 2 and v_[2][1][0] == 'tuple' else tuple(v_[2][1:])
+                r_ = inliner(ctx).apply_closure(v_[2][0], args_)
+                if r_ is not None:
+                    return norm(r_)
+            except Exception:
+                pass
+        return v_
     for c in pushes:
-        v = norm(c['argvals'][1])
+        v = pv(c)
         m = match(('tuple', (call('board::Board::get_hash', V('b')),
                              call('core::iter::traits::iterator::Iterator::collect', call('movegen::movegen::MoveGen::new_legal', V('b'))))), v)
+        if m is None and v[0] == 'call' and '::{closure#' in v[1] and v[2] and v[2][0][0] == 'closure':
+            # the entry is built by a local closure `let entry = |b: &Board| (b.get_hash(), MoveGen::new_legal(b).collect())`:
+            # read the closure's own return value over its argument
+            cs = ctx.an().summary(v[1])
+            cv = norm(cs.ret) if cs is not None and cs.ret is not None else None
+            if cv is not None and not (dict(enumerate(v[2][0])).get(2) or ()):
+                m = match(('tuple', (call('board::Board::get_hash', V('b')),
+                                     call('core::iter::traits::iterator::Iterator::collect', call('movegen::movegen::MoveGen::new_legal', V('b'))))), cv)
+            if m is None:
+                ident_ok = False
+                ctx.inconclusive('C11.R3', 'a list entry is built by a closure whose value is not analysed: ' + sh(v, 120))
+                continue
         if m is None:
             ident_ok = False
             ctx.violation('C11.R3', KEY + ':entry', 'a list entry is not (get_hash(b), legal moves of the same b): ' + sh(v, 200), where(body, c['line']))
@@ -359,13 +385,13 @@ def run(ctx):
         ctx.ok('C11.R3', 'every list entry is (get_hash(b), MoveGen::new_legal(b).collect()) of one and the same board', w)
     pre = [c for c in pushes if c['blk'] not in L['blocks']]
     inl = [c for c in pushes if c['blk'] in L['blocks']]
-    if len(pre) == 1 and match(('tuple', (call('board::Board::get_hash', ('field', SELF, 'start_pos')), ANY)), norm(pre[0]['argvals'][1])) is not None:
+    if len(pre) == 1 and match(('tuple', (call('board::Board::get_hash', ('field', SELF, 'start_pos')), ANY)), pv(pre[0])) is not None:
         ctx.ok('C11.R4', 'the start position is entered before the replay', where(body, pre[0]['line']))
     else:
         ctx.violation('C11.R4', KEY + ':start-entry', 'the start position is not entered into the repetition list exactly once', w)
     if len(inl) == 1 and not body_guards(inl[0]['blk']):
         newb = call('board::Board::make_move_new', V('old'), MV)
-        v = norm(inl[0]['argvals'][1])
+        v = pv(inl[0])
         if match(('tuple', (call('board::Board::get_hash', newb), ANY)), v) is not None:
             ctx.ok('C11.R4', 'after every MakeMove the successor (make_move_new of the replayed board) is entered, unconditionally', where(body, inl[0]['line']))
         else:
